@@ -1,12 +1,13 @@
 import SqlObjVerif.Model.FailX
 import SqlObjVerif.Lemmas.Fail
-import SqlObjVerif.Lemmas.OrmValXSetAll
+import SqlObjVerif.Lemmas.PyMainPure
 /-!
 Symbolic execution of the translated `SQLObject` write methods under the exception-injecting semantics
 `Model/PyFail.lean`: constructor-only simp lemmas of the helpers, the bridge between the interpreter's
 primitives (`sendStmt`, `memStep`) and the cases of `Fail.run`, the evaluation macros.
-(The dict / sorting lemmas of `Lemmas/OrmValX*.lean` are about the pure helper functions of `Model/PyMain.lean`
-that both semantics share; they are imported, not copied.)
+(The dict / sorting lemmas about the pure helper functions of `Model/PyMain.lean` that both semantics share are in
+`Lemmas/PyMainPure.lean`: copies of the generic lemmas of C05's `Lemmas/OrmValX*.lean`, so that C06's closure does not
+contain C05's proofs about other translated methods.)
 -/
 namespace SqlObjVerif.PyFail
 open SqlObjVerif.PyMain (PV FnKind Flag Expr Cond LExpr Target DRef ColAttr R mapR ofOpt PDict CVal
